@@ -10,6 +10,7 @@ REALS = ("ValueType is modelled by exact reals (type R): every 'equals its defin
          "the size and growth of IEEE rounding error is NOT decided by this check")
 
 UNITS = {
+    "text_forms": dict(tpl="text_forms.rs.tpl", doc="core::Source text forms: FromStr::from_str, From<Source> for &str, and their round trip"),
     "ma_instance": dict(tpl="ma_instance.rs.tpl", variants=False, doc="the crate's own MA / MAInstance satisfy the MovingAverageConstructor / MovingAverage trait contract the generic indicators are verified against; MovingAverage facts for all 15 kinds"),
     "smm_serde": dict(tpl="smm_serde.rs.tpl", doc="methods::SMM hand-written Deserialize (sorted buffer and middle positions rebuilt from the window)"),
     "ma_dispatch": dict(tpl="ma_dispatch.rs.tpl", variants=False, doc="helpers::{MA, MAInstance}: init / ma_period / ma_type / next dispatch to the wrapped kind"),
@@ -385,13 +386,18 @@ PROPS["C17"] = dict(
                  "prices are positive (input_ok), as in the property's valid-candle streams"],
 )
 PROPS["C18"] = dict(
-    verus=["ohlcv"], kani=["ohlcv"],
+    verus=["ohlcv", "text_forms"], kani=["ohlcv"],
+    forbid_in_src=[(r'"[^"]*[A-Z\s][^"]*"\s*(\||=>)|=>\s*"[^"]*[A-Z\s][^"]*"\s*,', "the source names matched and produced in core/candles.rs are lowercase without blanks (axiom norm_fixed)", r"src/core/candles\.rs$")],
     claim=("tp, hl2, ohlc4, volumed_price, source(kind), clv (incl. the zero-range branch and |clv| <= 1 for an ordered candle), tr_close == max(h-l, |h-pc|, |l-pc|) "
            "for h >= l, tr, and Candle + Candle (with associativity as a lemma) are verified over exact reals against their formulas for an arbitrary "
            "OHLCV implementation; validate, the source dispatch and the clv zero-range branch are additionally proved bit-precisely for every f64 candle "
-           "(NaN/inf included) by loop-free Kani harnesses. The bit-precise tr_close identity runs in the thorough tier."),
+           "(NaN/inf included) by loop-free Kani harnesses. The bit-precise tr_close identity runs in the thorough tier. Text forms of Source: from_str (its `match` over the "
+           "normalised text turned into a str_eq chain by rule R9) is verified to accept exactly the eight names and the alias hlc3 and to reject everything else with Err; the conversion to "
+           "&str yields the canonical name; source_text_roundtrip proves that the text of every source parses back to the same source."),
     assumptions=[REALS + " for the arithmetic identities (float + on volumes is not associative; the lemma is the ideal-arithmetic reading)",
-                 "text forms of Source and MA (from_str / into) are not covered: the string code needs unwinding bounds Kani did not finish within"],
+                 "`s.to_ascii_lowercase().trim()` is an uninterpreted normalisation (norm_text) with the single axiom that it leaves the nine lowercase, blank-free names alone (norm_fixed); "
+                 "that the names in the source have this form is backed by a source scan of core/candles.rs on every run",
+                 "MA has only FromStr (no textual output to round-trip); MA::from_str (split_once / parse) and the String / TryFrom wrappers of Source are not covered"],
 )
 
 PROPS["C15"] = dict(
